@@ -11,7 +11,11 @@ pub const SH_TYPES: [u32; 12] = [1, 2, 3, 4, 5, 6, 7, 8, 9, 11, 0x6ffffff6, 0x6f
 /// Operation sequence: queries on the file's own headers plus fabricated headers whose (start,end) come
 /// from a small pool of boundaries, so that different ranges share a start or an end and recur.
 pub fn gen_ops(c: &mut Choice, nsec: usize, nseg: usize, len: usize, names: &[Vec<u8>], max_ops: usize) -> (Vec<Q>, bool) {
-    let n = c.below(max_ops as u64 + 1) as usize;
+    // long histories over many distinct fabricated ranges only where the caller asks for them (C07): the
+    // stream parser's cache table grows with the number of distinct caller-fabricated ranges, which is outside
+    // what C08 bounds (see DESIGN 11.2)
+    let long = max_ops >= 40 && c.chance(20);
+    let n = if long { 60 + c.below(90) as usize } else { c.below(max_ops as u64 + 1) as usize };
     let mut pool = [0u64; 5];
     for p in pool.iter_mut() {
         *p = match c.below(6) {
@@ -23,7 +27,14 @@ pub fn gen_ops(c: &mut Choice, nsec: usize, nseg: usize, len: usize, names: &[Ve
     pool.sort();
     let mut fab_ranges: Vec<(u64, u64)> = vec![];
     let mut ops = vec![];
-    for _ in 0..n {
+    for k in 0..n {
+        if long && k + 6 < n && c.chance(215) {
+            // a history that touches many DISTINCT byte ranges before the multi-range accessors are called
+            let s0 = c.below(len as u64 + 1);
+            let e0 = s0 + c.below((len as u64 - s0).min(300) + 1);
+            ops.push(Q::FabSecData(SectionHeader { sh_name: 0, sh_type: 1, sh_flags: 0, sh_addr: 0, sh_offset: s0, sh_size: e0 - s0, sh_link: 0, sh_info: 0, sh_addralign: 1, sh_entsize: 0 }));
+            continue;
+        }
         let q = match c.below(22) {
             0 => Q::Counts,
             1 | 2 if nsec > 0 => Q::SecData(c.idx(nsec)),
@@ -97,6 +108,16 @@ pub fn in_scope<E: EndianParse>(f: &elf::ElfBytes<'_, E>, q: &Q) -> bool {
 /// Queries for which success/failure must coincide exactly between the two parsers.
 pub fn exact_coincidence(q: &Q) -> bool {
     matches!(q, Q::SecData(_) | Q::FabSecData(_) | Q::Symtab | Q::Dynsym | Q::VerReq(_) | Q::VerDef(_) | Q::SegNotes(_) | Q::FabSegNotes(_))
+}
+
+/// Initial cursor position of the reader handed to open_stream (0 in 70% of the cases).
+pub fn gen_initial_pos(c: &mut Choice, len: usize) -> u64 {
+    match c.below(10) {
+        0 => 4,
+        1 => 16,
+        2 => c.below(len as u64 + 1),
+        _ => 0,
+    }
 }
 
 pub fn gen_reader_behaviour(c: &mut Choice, min_chunk: usize) -> (Vec<usize>, u64) {
